@@ -141,6 +141,7 @@ def main():
         n += len(corpus)          # the corpus comes on top of the generated datasets
         while done < n and attempts < 20 * n:
             attempts += 1
+            in_corpus = bool(corpus)
             desc = corpus.pop(0) if corpus else G.gen_dataset(rng)
             if not usable(desc):
                 continue
@@ -152,8 +153,21 @@ def main():
                     backend = "numpy"
                 ds = G.build(desc, backend)
                 app = BaseHandler(ds, gzip=gz)
+                # the block size of the streaming encoder is a deployment setting (environ key pydap.buffer_size): the corpus is
+                # always served in blocks of a few bytes, the generated datasets in a third of the cases
+                bs = rng.choice([3, 5]) if in_corpus else rng.choice([None, None, 1, 3, 5, 8])
+                if bs is not None:
+                    def app(environ, start_response, inner=app, bs=bs):
+                        environ["pydap.buffer_size"] = bs
+                        return inner(environ, start_response)
+                    cfg_count["small_blocks"] = cfg_count.get("small_blocks", 0) + 1
                 # the separator hypothesis of the theorem, on the real DDS text
                 body = Request.blank("/.dods").get_response(BaseHandler(ds)).body
+                if bs is not None and not gz:
+                    body_small = Request.blank("/.dods", environ={"pydap.buffer_size": bs}).get_response(BaseHandler(ds)).body
+                    if body_small != body:
+                        direct.append({"law": "the bytes of a response do not depend on the block size it is streamed in", "config": "buffer_size=%d" % bs,
+                                       "dataset": repr(desc)[:1500]})
                 dds_txt = body.split(b"\nData:\n", 1)[0]
                 if not gz:
                     sep_cases.append("(%s)" % cB(dds_txt))
